@@ -23,7 +23,7 @@ func init() {
 		LevelText:   "Structural clauses decided for all paths: at each of the three ingest sites no message reaches the batch on an encrypted stream without its Value having been replaced by the result of a successful Seal; the subscribe loop delivers the result of a successful Read on encrypted streams; every index/slice on stored (tamperable) bytes in Read/decryptData is proven in bounds; the GCM nonce is fresh crypto/rand output of NonceSize bytes and Open's error is propagated. Confidentiality of byte strings and cryptographic strength are not decided.",
 		LevelNote:   "Trusted: go/ssa, crypto/aes, crypto/cipher and tink's key wrap; the tamper model is 'any stored byte may change'.",
 		DesignRef:   "DESIGN.md §4 C17",
-		Explanation: "R17.5 also: CreateStream records the encryption decision in the stream's configuration on every path to the proposal (F73); R17.4 also: nothing on the read path writes handler state that is not behind a successful key unwrap. R17.1 seal-before-store at the ingest sites of messageProcessingLoop, R17.2 open-before-deliver in the subscribe loop, R17.3 bounds on stored bytes in LocalEncryptionHandler.Read/decryptData/unwrapDEK, R17.4 nonce / key hygiene and error propagation, R17.5 every partition of an encrypted stream gets its handler and nothing replaces it, R16.8 (shared) encryption setting plumbing. R17.4 also requires Read to cut the stored form by its length byte so that every stored byte is integrity-checked; R15.8 (shared) streams.encryption reaches its Config field. NOT decided: that stored bytes never contain the plaintext, cryptographic strength.",
+		Explanation: "R17.4 also (round 8): the cipher that seals or opens a value is built in that call from the key handed in for that value. R17.5 also: CreateStream records the encryption decision in the stream's configuration on every path to the proposal (F73); R17.4 also: nothing on the read path writes handler state that is not behind a successful key unwrap. R17.1 seal-before-store at the ingest sites of messageProcessingLoop, R17.2 open-before-deliver in the subscribe loop, R17.3 bounds on stored bytes in LocalEncryptionHandler.Read/decryptData/unwrapDEK, R17.4 nonce / key hygiene and error propagation, R17.5 every partition of an encrypted stream gets its handler and nothing replaces it, R16.8 (shared) encryption setting plumbing. R17.4 also requires Read to cut the stored form by its length byte so that every stored byte is integrity-checked; R15.8 (shared) streams.encryption reaches its Config field. NOT decided: that stored bytes never contain the plaintext, cryptographic strength.",
 	})
 }
 
